@@ -8,7 +8,8 @@ MANIFEST = {
             "the RFC decoder S does, with equal decoded content; clause theorems (reserved nibbles, number > 65535, truncation, marker without "
             "payload, non-empty Empty, length table) about S; the accessor walk equals the decoder's view; the per-option length table is "
             "regenerated from the code and proved equal to the RFCs' table. M is tied to the compiled code by differential runs (I vs M vs S) "
-            "on generated and field-mutated byte strings for all three framings.",
+            "on generated and field-mutated byte strings for all three framings; C03's TCP frames are also sent through the real stream reassembly "
+            "(coap_read_session, whole and in random cuts) with C05's op, model, specification and judge (borrowed).",
     "note": "Trusted: Lean kernel (+ propext, Classical.choice, Quot.sound), the T1 extractor and T2 harness/generators, the hand "
             "transcription M (checked against the compiled code on the cases run only). TCP is judged per frame (SPEC DECISION D10).",
     "design_ref": "DESIGN.md §4 C03",
@@ -23,7 +24,8 @@ REQUIRED_THEOREMS = ["parse_eq_spec", "optLenTable_matches_rfc", "reserved_nibbl
 RULE = ("byte strings for udp/tcp/ws framing: valid encodings from an independent generator (token/option/payload "
         "length classes on both sides of 12/13, 268/269, 65804), 1-3 field-level mutations of them (nibbles, extension "
         "bytes, TKL, length prefix, marker, truncation), blind random bytes, the fixed corpus; non-trivial = distinct "
-        "input on which the specification decoder or the implementation accepted, or which is a mutation of a valid encoding")
+        "input on which the specification decoder or the implementation accepted, or which is a mutation of a valid encoding; + op optit (filter scripts, filtered iteration, "
+        "coap_check_option over accepted datagrams and arbitrary option regions); + op tcp (borrowed from C05): streams of 1-3 of C03's TCP frames, whole and cut at 0-3 random places")
 TRUSTED_BASE = ["Lean 4.33 kernel; axioms allowed: propext, Classical.choice, Quot.sound (audited per theorem each run)",
                 "T1 extractor extract/optlen.c (evaluation of libcoap's static length-table functions) and its renderer",
                 "harness/codec.c + generators + string comparison",
@@ -74,6 +76,41 @@ def generate(ctx, escalate=False):
                     b = G.mutate(rng, b)
         out.append("parse %s %s" % (wire, hx(b)))
     out += gen_optit(ctx, n // 6)
+    out += gen_stream_frames(ctx, n // 16)
+    return out
+
+
+# ---- the stream reassembly in front of the decoder (borrowed from C05: its op `tcp`, harness, model, specification and judge) ----
+# C03 judges a TCP frame as cut by the framing arithmetic of coap_read_session (SPEC DECISION D10) - through a COPY of that arithmetic in
+# harness/codec.c.  What coap_read_session itself hands to coap_pdu_parse_header / coap_pdu_parse_opt (header bytes, extended-token
+# length bytes, the body) is C05's territory; three seeded changes there (C03-6, C03-8, C03-15) were silent in C03 and reported by C05.
+# C03's own frames (its generator's field edge cases: extended tokens, option extensions, length prefixes) are therefore also sent
+# through the real coap_read_session as whole streams and in random cuts, and judged by C05's judge (I vs S_stream, I vs M_stream).
+def _p05():
+    import props.C05 as P5
+    return P5
+
+
+HARNESS_FOR_OP = {"tcp": lambda ctx: _p05().harness(ctx)}
+
+
+def gen_stream_frames(ctx, n):
+    rng = ctx.rng
+    out = []
+    for i in range(n):
+        msgs = []
+        for _ in range(rng.choice([1, 1, 2, 3])):
+            m = G.gen_msg(rng, big=False, valid_len=rng.random() < 0.85)
+            if len(m[5]) > 600:
+                m = m[:5] + (m[5][:600],)
+            b = G.encode("tcp", *m)
+            if rng.random() < 0.15:
+                b = G.mutate(rng, b)
+            msgs.append(b)
+        stream = b"".join(msgs)
+        ncut = rng.choice([0, 0, 1, 2, 3])
+        cuts = sorted(set(rng.randrange(1, len(stream)) for _ in range(ncut))) if len(stream) > 1 else []
+        out.append("tcp 0 %s %s" % (hx(stream), ",".join(str(c) for c in cuts) if cuts else "-"))
     return out
 
 
@@ -118,6 +155,8 @@ def gen_optit(ctx, n):
 
 
 def judge(ctx, c):
+    if c["input"].startswith("tcp "):
+        return _p05().judge(ctx, c)
     i, m, s = c["impl"], c["model"], c["spec"]
     if c["input"].startswith("optit"):
         import re
@@ -138,12 +177,16 @@ def short(s):
 
 
 def nontrivial(c):
+    if c["input"].startswith("tcp "):
+        return _p05().nontrivial(c)
     if c["input"].startswith("optit"):
         return (c["impl"] or "").startswith("r=") and "it=- " not in (c["impl"] or "")
     return (c["spec"] or "").startswith("ok") or (c["impl"] or "").startswith("ok")
 
 
 def classify(c):
+    if c["input"].startswith("tcp "):
+        return "stream-" + _p05().classify(c)
     if c["input"].startswith("optit"):
         i = c["impl"] or ""
         return "optit-" + c["input"].split()[1] + ":" + ("rej" if i == "rej" else "refused-set" if "0" in i.split(" ")[0].replace("g", "") and "s" in c["input"] else "ok")
@@ -156,6 +199,8 @@ def search(ctx, tie_breaks, proof):
     rng = ctx.rng
     out = []
     for c in tie_breaks[:50]:
+        if c["input"].startswith("tcp "):
+            continue
         if c["input"].startswith("optit"):
             _, mode, h, sc = c["input"].split()
             b = bytes.fromhex(h) if h != "-" else b""
@@ -200,7 +245,7 @@ def table_witnesses():
 
 def shrink(ctx, case):
     """greedy byte deletion while the implementation still contradicts the specification"""
-    if case["input"].startswith("optit"):
+    if case["input"].startswith("optit") or case["input"].startswith("tcp "):
         return case
     _, proto, h = case["input"].split()
     b = bytes.fromhex(h) if h != "-" else b""
